@@ -6,19 +6,23 @@ package main
 // through the CLI, snapshot listings, oracle tables for the filter model.
 
 import (
+	"context"
 	"encoding/json"
 	"fmt"
 	"os"
 	"path/filepath"
 	"sort"
 	"strings"
+	"syscall"
 
+	"github.com/restic/restic/internal/data"
 	"github.com/restic/restic/internal/filter"
+	"github.com/restic/restic/internal/restic"
 )
 
 type a5Node struct {
 	Name     string
-	Kind     byte // 'f' regular file, 'd' directory, 'o' other (symlink)
+	Kind     byte // 'f' regular file, 'd' directory, 'o' other (symlink), 's' unix socket
 	Size     int
 	Children []*a5Node
 }
@@ -68,6 +72,10 @@ func a5WriteTree(dir string, nodes []*a5Node) {
 			if err := os.Symlink("target-of-"+n.Name, p); err != nil {
 				panic(err)
 			}
+		case 's':
+			if err := syscall.Mknod(p, syscall.S_IFSOCK|0o644, 0); err != nil {
+				panic(err)
+			}
 		default:
 			if err := os.WriteFile(p, []byte(strings.Repeat("z", n.Size)), 0o644); err != nil {
 				panic(err)
@@ -92,7 +100,7 @@ func a5Paths(prefix string, nodes []*a5Node, out *[]string) {
 
 type a5Entry struct {
 	Path string // "/a/b"
-	Type string // f | d | o
+	Type string // f | d | o | s (socket)
 	Size uint64
 }
 
@@ -122,6 +130,8 @@ func a5Ls(cli *CLI, snap string) []a5Entry {
 			t = "f"
 		case "dir":
 			t = "d"
+		case "socket":
+			t = "s"
 		}
 		if t != "f" {
 			n.Size = 0
@@ -220,12 +230,15 @@ func a5Oracle(h *H, rawPatterns []string, comps []string) {
 	}
 }
 
-// a5Flags is a generated set of pattern flags of restore / rewrite.
+// a5Flags is a generated set of pattern options of restore / rewrite: flag values and pattern files
+// (each file = its lines) of the four kinds.
 type a5Flags struct {
-	Ex, IEx, In, IIn []string
+	Ex, IEx, In, IIn                 []string
+	ExFile, IExFile, InFile, IInFile [][]string
 }
 
-func (f a5Flags) Args() []string {
+// Args returns the command line flags; pattern files are written into dir.
+func (f a5Flags) Args(dir string) []string {
 	var a []string
 	for _, p := range f.Ex {
 		a = append(a, "--exclude", p)
@@ -239,16 +252,50 @@ func (f a5Flags) Args() []string {
 	for _, p := range f.IIn {
 		a = append(a, "--iinclude="+p)
 	}
+	n := 0
+	file := func(flag string, files [][]string) {
+		for _, lines := range files {
+			n++
+			name := filepath.Join(dir, fmt.Sprintf("patterns-%d.txt", n))
+			if err := os.WriteFile(name, []byte(strings.Join(lines, "\n")+"\n"), 0o644); err != nil {
+				panic(err)
+			}
+			a = append(a, flag, name)
+		}
+	}
+	file("--exclude-file", f.ExFile)
+	file("--iexclude-file", f.IExFile)
+	file("--include-file", f.InFile)
+	file("--iinclude-file", f.IInFile)
 	return a
 }
 
-// Raw returns every pattern string as it reaches ParsePatterns (insensitive ones lower-cased).
+func a5FileLines(files [][]string) []string {
+	var l []string
+	for _, f := range files {
+		for _, line := range f {
+			line = strings.TrimSpace(line)
+			if line != "" && !strings.HasPrefix(line, "#") {
+				l = append(l, line)
+			}
+		}
+	}
+	return l
+}
+
+// Raw returns every pattern string the model may have to clean / parse: flag values and file
+// lines as given, and the lower-cased form of the case-insensitive ones.
 func (f a5Flags) Raw() []string {
 	var l []string
 	l = append(l, f.Ex...)
 	l = append(l, f.In...)
-	for _, p := range append(append([]string(nil), f.IEx...), f.IIn...) {
-		l = append(l, strings.ToLower(p))
+	l = append(l, a5FileLines(f.ExFile)...)
+	l = append(l, a5FileLines(f.InFile)...)
+	ins := append(append([]string(nil), f.IEx...), f.IIn...)
+	ins = append(ins, a5FileLines(f.IExFile)...)
+	ins = append(ins, a5FileLines(f.IInFile)...)
+	for _, p := range ins {
+		l = append(l, p, strings.ToLower(p))
 	}
 	return l
 }
@@ -266,6 +313,52 @@ func (f a5Flags) Rec(h *H) {
 	for _, p := range f.IIn {
 		h.Rec("iin", HexS(p))
 	}
+	file := func(key string, files [][]string) {
+		for _, lines := range files {
+			h.Rec(key, HexList(lines)...)
+		}
+	}
+	file("exf", f.ExFile)
+	file("iexf", f.IExFile)
+	file("inf", f.InFile)
+	file("iinf", f.IInFile)
+}
+
+// ToFiles moves some of the flag values into pattern files of the same kind (with comment lines,
+// blank lines and surrounding white space, which readPatternsFromFiles must strip).
+func (f a5Flags) ToFiles(h *H) a5Flags {
+	move := func(vals []string) (keep []string, files [][]string) {
+		var lines []string
+		for _, v := range vals {
+			if v != "" && h.Intn(2) == 0 && strings.TrimSpace(v) == v && !strings.HasPrefix(v, "#") && !strings.Contains(v, "$") {
+				switch h.Intn(5) {
+				case 0:
+					lines = append(lines, "# a comment", "  "+v+"\t")
+				case 1:
+					lines = append(lines, "", v)
+				default:
+					lines = append(lines, v)
+				}
+			} else {
+				keep = append(keep, v)
+			}
+		}
+		if len(lines) > 0 {
+			if len(lines) > 1 && h.Intn(3) == 0 {
+				files = append(files, lines[:1], lines[1:])
+			} else {
+				files = append(files, lines)
+			}
+		} else if h.Intn(12) == 0 {
+			files = append(files, []string{"# only a comment", ""})
+		}
+		return
+	}
+	f.Ex, f.ExFile = move(f.Ex)
+	f.IEx, f.IExFile = move(f.IEx)
+	f.In, f.InFile = move(f.In)
+	f.IIn, f.IInFile = move(f.IIn)
+	return f
 }
 
 // a5GenPattern makes a pattern that mostly refers to names of the tree (paths = names-paths).
@@ -344,4 +437,93 @@ func a5GenFlags(h *H, paths []string, include bool) a5Flags {
 		}
 	}
 	return f
+}
+
+// a5GraftSockets rewrites the tree of a snapshot so that some directories additionally hold socket
+// nodes (hand-built data.Node of type "socket": the archiver of this version ignores sockets, but
+// snapshots written by other versions contain them and restore has to cope: they are skipped, and
+// their names still protect same-named target entries from --delete). Returns the id of the new
+// snapshot (the old one is removed) and the number of socket nodes added.
+func a5GraftSockets(h *H, cli *CLI, snapID string) (string, int) {
+	ctx := context.Background()
+	repo := cli.OpenRepo()
+	if err := repo.LoadIndex(ctx, restic.NoopTerminalCounterFactory); err != nil {
+		panic(err)
+	}
+	id, err := restic.ParseID(snapID)
+	if err != nil {
+		panic(err)
+	}
+	sn, err := data.LoadSnapshot(ctx, repo, id)
+	if err != nil {
+		panic(err)
+	}
+	added := 0
+	sockNames := []string{"app.sock", "a", "b", "y.txt", "Ab", "xold", "stale"}
+	var rebuild func(up restic.BlobSaver, tree restic.ID, depth int) restic.ID
+	rebuild = func(up restic.BlobSaver, tree restic.ID, depth int) restic.ID {
+		it, err := data.LoadTree(ctx, repo, tree)
+		if err != nil {
+			panic(err)
+		}
+		var nodes []*data.Node
+		used := map[string]bool{}
+		for item := range it {
+			if item.Error != nil {
+				panic(item.Error)
+			}
+			n := item.Node
+			if n.Type == data.NodeTypeDir && n.Subtree != nil {
+				sub := rebuild(up, *n.Subtree, depth+1)
+				n.Subtree = &sub
+			}
+			used[n.Name] = true
+			nodes = append(nodes, n)
+		}
+		for k := 0; k < 2; k++ {
+			if h.Intn(3) != 0 {
+				continue
+			}
+			name := h.Pick(sockNames)
+			if used[name] {
+				continue
+			}
+			used[name] = true
+			added++
+			nodes = append(nodes, &data.Node{Name: name, Type: data.NodeTypeSocket, Mode: os.ModeSocket | 0o644,
+				ModTime: sn.Time, AccessTime: sn.Time, ChangeTime: sn.Time})
+		}
+		sort.Slice(nodes, func(i, j int) bool { return nodes[i].Name < nodes[j].Name })
+		tw := data.NewTreeWriter(up)
+		for _, n := range nodes {
+			if err := tw.AddNode(n); err != nil {
+				panic(err)
+			}
+		}
+		nid, err := tw.Finalize(ctx)
+		if err != nil {
+			panic(err)
+		}
+		return nid
+	}
+	var newTree restic.ID
+	err = repo.WithBlobUploader(ctx, func(ctx context.Context, up restic.BlobSaverWithAsync) error {
+		newTree = rebuild(up, *sn.Tree, 0)
+		return nil
+	})
+	if err != nil {
+		panic(err)
+	}
+	if added == 0 {
+		return snapID, 0
+	}
+	sn.Tree = &newTree
+	nid, err := data.SaveSnapshot(ctx, repo, sn)
+	if err != nil {
+		panic(err)
+	}
+	if err := repo.RemoveUnpacked(ctx, restic.WriteableSnapshotFile, id); err != nil {
+		panic(err)
+	}
+	return nid.String(), added
 }
